@@ -10,9 +10,11 @@ import Driver.Env
 import Driver.Affinity
 import Driver.Config
 import Driver.Rank
+import Driver.RankConc
 import Driver.XsCtx
 import Driver.X86
 import Driver.MemPool
+import Driver.MemOwner
 import Driver.StackGeom
 import Driver.KTable
 import Driver.UnitMap
@@ -21,17 +23,23 @@ import Driver.Barrier
 import Driver.Eventual
 import Driver.Future
 import Driver.WLPtr
+import Driver.PopWait
+import Driver.PoolConc
 import Driver.RWLock
+import Driver.KTableConc
 
 def main (args : List String) : IO UInt32 := do
   match args with
   | ["htable"] => Driver.HTable.main; return 0
   | ["mutex"] => Driver.Mutex.main; return 0
   | ["join"] => Driver.Join.main; return 0
+  | ["memowner"] => Driver.MemOwner.main; return 0
   | ["sched"] => Driver.Sched.main; return 0
   | ["cond"] => Driver.Cond.mainCond; return 0
   | ["waitlist"] => Driver.Cond.mainWl; return 0
   | ["wlptr"] => Driver.WLPtr.main; return 0
+  | ["popwait"] => Driver.PopWait.main; return 0
+  | ["poolconc"] => Driver.PoolConc.main; return 0
   | ["ledger"] => Driver.Ledger.main; return 0
   | ["tq"] => Driver.TQ.mainTQ; return 0
   | ["pool", kind] => Driver.TQ.mainPool kind
@@ -40,6 +48,7 @@ def main (args : List String) : IO UInt32 := do
   | ["affinity"] => Driver.Affinity.main; return 0
   | ["config"] => Driver.Config.main; return 0
   | ["rank"] => Driver.Rank.main; return 0
+  | ["rankconc"] => Driver.RankConc.main; return 0
   | ["xsctx"] => Driver.XsCtx.main; return 0
   | ["x86"] => Driver.X86.main; return 0
   | ["mempool"] => Driver.MemPool.main; return 0
@@ -52,4 +61,5 @@ def main (args : List String) : IO UInt32 := do
   | ["eventual"] => Driver.Eventual.main; return 0
   | ["future"] => Driver.Future.main; return 0
   | ["rwlock"] => Driver.RWLock.main; return 0
+  | ["ktableconc"] => Driver.KTableConc.main; return 0
   | _ => IO.eprintln "usage: driver <model>  (htable)"; return 2
